@@ -182,6 +182,113 @@ Definition fit_predict (p : plsr) (X : tensor F) : tensor F :=
   plsr_predict (X_mean_ p) (Y_mean_ p) (loadings p) (coef_of (comps p)) (yload_of (hd 0 (shape (Y_mean_ p))) (comps p)) X.
 End Fit.
 
+(* ---------------------------------------------------------------- the inner power iteration of CP_PLSR.fit
+   (the body of `for iter in range(self.n_iter_max)`), concretely.  What stays a black box:
+     sqrtF    the square root inside T.norm
+     init     initialize_cp(Z, 1, normalize_factors=True).factors reshaped to vectors (SVD of the unfoldings of Z):
+              a function of Z only
+     ne_solve T.lstsq(X_factors[0], u) read as a function of the normal-equation data (T'T, T'u)
+              (the minimum-norm least-squares solution pinv(T) u = pinv(T'T) T'u is such a function)
+     tol      the stopping threshold *)
+Section Inner.
+Variable sqrtF : F -> F.
+Variable init : tensor F -> list (tensor F).
+Variable ne_solve : list (list F) -> list F -> list F.
+Variable tol : F.
+
+Definition sumsq (v : tensor F) : F := fsum_idx (shape v) (fun J => fmul Op (tget v J) (tget v J)).
+Definition norm2 (v : tensor F) : F := sqrtF (sumsq v).
+(* v / T.norm(v) *)
+Definition normalize (v : tensor F) : tensor F :=
+  tabulate (shape v) (fun J => fdiv Op (tget v J) (norm2 v)).
+
+(* T.tensordot(X, u, axes=((0,), (0,)));  also T.dot(T.transpose(Y), t) for a matrix Y *)
+Definition xty (X : tensor F) (u : list F) : tensor F :=
+  tabulate (sshape X) (fun J => fsumn (nsamp X) (fun i => fmul Op (tget X (i :: J)) (nth i u (f0 Op)))).
+
+(* multi_mode_dot(Z, Z_comp, skip=mode): every mode but `mode` contracted with its vector *)
+Definition mode_factor (Z : tensor F) (ls : list (tensor F)) (mode : nat) : tensor F :=
+  tabulate [nth mode (shape Z) 0] (fun idx =>
+    fsum_idx (remove_nth mode (shape Z))
+             (fun J' => fmul Op (tget Z (insert_at mode (nth 0 idx 0) J')) (rank1 (remove_nth mode ls) J'))).
+(* for mode in range(len(Z_comp)): Z_comp[mode] = factor / T.norm(factor, 2) *)
+Fixpoint mode_sweep (Z : tensor F) (ls : list (tensor F)) (modes : list nat) : list (tensor F) :=
+  match modes with
+  | [] => ls
+  | m :: rest => mode_sweep Z (set_nth m (normalize (mode_factor Z ls m)) ls) rest
+  end.
+
+Definition col0 (Y : tensor F) : list F := map (fun i => tget Y [i; 0]) (seq 0 (nsamp Y)).
+Definition yscore_of (Y q : tensor F) : list F :=
+  map (fun i => fsumn (nth 1 (shape Y) 0) (fun o => fmul Op (tget Y [i; o]) (tget q [o]))) (seq 0 (nsamp Y)).
+
+Record istate := mkI { i_ls : list (tensor F); i_t : list F; i_q : tensor F; i_u : list F }.
+(* one pass of the body: Z, (first pass only) the SVD initialisation, the mode updates, the X scores,
+   the normalised Y loading, the Y scores *)
+Definition inner_step (X Y : tensor F) (ls0 : list (tensor F)) (u : list F) (first : bool) : istate :=
+  let Z := xty X u in
+  let ls1 := if first then init Z else ls0 in
+  let ls2 := if 2 <=? ndim Z then mode_sweep Z ls1 (seq 0 (length ls1)) else [normalize Z] in
+  let t := scores X ls2 in
+  let q := normalize (xty Y t) in
+  mkI ls2 t q (yscore_of Y q).
+(* T.norm(old_comp_Y_factors_0 - comp_Y_factors_0) *)
+Definition ldist (n : nat) (a b : list F) : F :=
+  sqrtF (fsumn n (fun i => let dlt := fsub Op (nth i a (f0 Op)) (nth i b (f0 Op)) in fmul Op dlt dlt)).
+(* passes 2, 3, ...: stop (keeping the values just computed) when the Y scores moved by less than tol *)
+Fixpoint inner_loop (fuel : nat) (X Y : tensor F) (st : istate) : istate :=
+  match fuel with
+  | O => st
+  | S k => let st' := inner_step X Y (i_ls st) (i_u st) false in
+           if fltb Op (ldist (nsamp Y) (i_u st) (i_u st')) tol then st' else inner_loop k X Y st'
+  end.
+(* the first pass compares with +inf and never stops; n_iter_max = 0 is outside the model (the source raises) *)
+Definition inner_state (n_iter_max : nat) (X Y : tensor F) : istate :=
+  inner_loop (n_iter_max - 1) X Y (inner_step X Y [] (col0 Y) true).
+Definition inner_cp (n_iter_max : nat) (X Y : tensor F) : list (tensor F) * tensor F :=
+  let st := inner_state n_iter_max X Y in (i_ls st, i_q st).
+
+Definition ldot (n : nat) (a b : list F) : F := fsumn n (fun i => fmul Op (nth i a (f0 Op)) (nth i b (f0 Op))).
+Definition lstsq_ne (Tc : list (list F)) (u : list F) : list F :=
+  ne_solve (map (fun a => map (fun b => ldot (length u) a b) Tc) Tc) (map (fun a => ldot (length u) a u) Tc).
+
+(* CP_PLSR(n_components, tol, n_iter_max).fit(X, Y) *)
+Definition fit_cp (n_iter_max ncomp : nat) (X Y : tensor F) : plsr :=
+  fit (inner_cp n_iter_max) lstsq_ne ncomp X Y.
+End Inner.
+
+(* ---------------------------------------------------------------- the iteration of CPRegressor.fit /
+   TuckerRegressor.fit around the block updates: which iterate the stored attributes are taken from.
+   `sweep` = one pass over all blocks (ridge solves; their models belong to C07), `rebuild` = cp_to_tensor /
+   tucker_to_tensor of the current blocks, `nrm` = T.norm(., 2), `small a b` = |a - b| / a <= tol. *)
+Section RegLoop.
+Context {P : Type}.
+Variable sweep : P -> P.
+Variable rebuild : P -> tensor F.
+Variable nrm : tensor F -> F.
+Variable small : F -> F -> bool.
+
+(* state after the loop: current blocks, the local weight_tensor_ (None before the first pass), the norms (latest first) *)
+Fixpoint reg_loop (fuel iteration : nat) (w : P) (wt : option (tensor F)) (norms : list F) : P * option (tensor F) * list F :=
+  match fuel with
+  | O => (w, wt, norms)
+  | S k =>
+      let w' := sweep w in
+      let wt' := rebuild w' in
+      let norms' := nrm wt' :: norms in
+      if (1 <? iteration) && (match norms' with a :: b :: _ => small a b | _ => false end)
+      then (w', Some wt', norms')
+      else reg_loop k (S iteration) w' (Some wt') norms'
+  end.
+Record reg_stored := mkReg { r_weight_tensor : tensor F; r_blocks : P; r_vec : res (tensor F) }.
+(* self.weight_tensor_ = weight_tensor_; self.cp_weight_ = (weights, W); self.vec_W_ = cp_to_vec((weights, W)) *)
+Definition reg_fit (n_iter_max : nat) (w0 : P) : res reg_stored :=
+  match reg_loop n_iter_max 0 w0 None [] with
+  | (w, Some wt, _) => Ok (mkReg wt w (tensor_to_vec (rebuild w)))
+  | (_, None, _) => Err        (* n_iter_max = 0: weight_tensor_ is unbound, the source raises *)
+  end.
+End RegLoop.
+
 (* helpers for statements: adding a constant tensor to every sample; re-ordering samples *)
 Definition shift (X c : tensor F) : tensor F :=
   tabulate (shape X) (fun idx => fadd Op (tget X idx) (tget c (tl idx))).
